@@ -192,6 +192,10 @@ func glueSource(tag string) string {
 
 // addProjects renders the projects, runs the REAL gleece CLI five times per project and writes the glue.
 func (rs *routerSim) addProjects(ps []*projgen.Project, workers int) {
+	rs.addProjectsTagged(ps, nil, workers)
+}
+
+func (rs *routerSim) addProjectsTagged(ps []*projgen.Project, tags []string, workers int) {
 	type item struct {
 		bp  batchProject
 		dir string
@@ -200,6 +204,9 @@ func (rs *routerSim) addProjects(ps []*projgen.Project, workers int) {
 	items := make([]*item, len(ps))
 	for k, p := range ps {
 		tag := fmt.Sprintf("p%d", k)
+		if tags != nil {
+			tag = tags[k]
+		}
 		p.Mod, p.Hook, p.OpPrefix = "simbatch/"+tag, "simbatch/simhook", tag+"/"
 		dir := filepath.Join(rs.batchDir, tag)
 		if err := p.Render(dir); err != nil {
@@ -284,6 +291,9 @@ func (rs *routerSim) runBatch(seed uint64, tier string, projects []batchProject,
 	defer cancel()
 	cmd := exec.CommandContext(ctx, rs.bin, inF, outF)
 	cmd.Dir = rs.batchDir
+	if g := os.Getenv("VERIF_BATCH_GOMAXPROCS"); g != "" {
+		cmd.Env = append(os.Environ(), "GOMAXPROCS="+g)
+	}
 	out, err := cmd.CombinedOutput()
 	if ctx.Err() != nil {
 		harnessFail("watchdog: batch binary did not finish")
